@@ -257,6 +257,7 @@ var reFailFile = regexp.MustCompile(`(/[^\s:]+\.php)`)
 type batchOut struct {
 	results   []result
 	rejected  map[string]string // id -> compile error
+	invalid   map[string]string // id -> go build error of the generated code
 	err       string
 	nodeTypes map[string]bool
 }
@@ -271,10 +272,11 @@ func sh(dir string, env []string, name string, args ...string) (string, error) {
 	return out.String(), err
 }
 
+var reBadAst = regexp.MustCompile(`ast_[A-Za-z0-9_]*_src_p(\d{4})(?:l\d+)?\.go:`)
 var reNode = regexp.MustCompile(`&node\.(\w+)\{|node\.New(\w+)\(`)
 
 func runBatch(bi int, items []item, cli, repo, overlay string) batchOut {
-	bo := batchOut{rejected: map[string]string{}, nodeTypes: map[string]bool{}}
+	bo := batchOut{rejected: map[string]string{}, invalid: map[string]string{}, nodeTypes: map[string]bool{}}
 	root, err := os.MkdirTemp("/dev/shm", fmt.Sprintf("c16-b%d-", bi))
 	if err != nil {
 		bo.err = err.Error()
@@ -329,65 +331,97 @@ func runBatch(bi int, items []item, cli, repo, overlay string) batchOut {
 			return bo
 		}
 	}
-	reg, err := os.ReadFile(filepath.Join(out, "register.go"))
-	if err != nil {
-		bo.err = "no register.go: " + err.Error()
-		return bo
-	}
-	fns := reFn.FindAllStringSubmatch(string(reg), -1)
-	var files, allFiles []string
-	for f := range byFile {
-		files = append(files, f)
-		allFiles = append(allFiles, f)
-	}
-	for lf := range owner {
-		allFiles = append(allFiles, lf)
-	}
-	sort.Strings(files)
-	sort.Strings(allFiles)
-	if len(fns) != len(allFiles) {
-		bo.err = fmt.Sprintf("generated %d constructors for %d files", len(fns), len(allFiles))
-		return bo
-	}
-	fnOf := map[string]string{}
-	for i, f := range allFiles {
-		fnOf[f] = fns[i][1]
-	}
-	// node types used by the generated literals (coverage report)
-	asts, _ := filepath.Glob(filepath.Join(out, "ast_*.go"))
-	for _, a := range asts {
-		b, _ := os.ReadFile(a)
-		for _, m := range reNode.FindAllStringSubmatch(string(b), -1) {
-			if m[1] != "" {
-				bo.nodeTypes[m[1]] = true
-			} else {
-				bo.nodeTypes[m[2]] = true
+	bin := filepath.Join(root, "batch")
+	for attempt := 0; ; attempt++ {
+		reg, err := os.ReadFile(filepath.Join(out, "register.go"))
+		if err != nil {
+			bo.err = "no register.go: " + err.Error()
+			return bo
+		}
+		fns := reFn.FindAllStringSubmatch(string(reg), -1)
+		var files, allFiles []string
+		files = files[:0]
+		for f := range byFile {
+			files = append(files, f)
+			allFiles = append(allFiles, f)
+		}
+		for lf := range owner {
+			allFiles = append(allFiles, lf)
+		}
+		sort.Strings(files)
+		sort.Strings(allFiles)
+		if len(fns) != len(allFiles) {
+			bo.err = fmt.Sprintf("generated %d constructors for %d files", len(fns), len(allFiles))
+			return bo
+		}
+		fnOf := map[string]string{}
+		for i, f := range allFiles {
+			fnOf[f] = fns[i][1]
+		}
+		// node types used by the generated literals (coverage report)
+		asts, _ := filepath.Glob(filepath.Join(out, "ast_*.go"))
+		for _, a := range asts {
+			b, _ := os.ReadFile(a)
+			for _, m := range reNode.FindAllStringSubmatch(string(b), -1) {
+				if m[1] != "" {
+					bo.nodeTypes[m[1]] = true
+				} else {
+					bo.nodeTypes[m[2]] = true
+				}
 			}
 		}
-	}
-	// the generator names constructors after the path; the register file lists them in file order
-	var tb strings.Builder
-	tb.WriteString("package main\n\nvar progs = []prog{\n")
-	for _, f := range files {
-		fmt.Fprintf(&tb, "\t{%q, %q, %s, []lib{", byFile[f].ID, f, fnOf[f])
-		for _, lf := range libFiles[f] {
-			fmt.Fprintf(&tb, "{%q, %s}, ", lf, fnOf[lf])
+		var tb strings.Builder
+		tb.WriteString("package main\n\nvar progs = []prog{\n")
+		for _, f := range files {
+			fmt.Fprintf(&tb, "\t{%q, %q, %s, []lib{", byFile[f].ID, f, fnOf[f])
+			for _, lf := range libFiles[f] {
+				fmt.Fprintf(&tb, "{%q, %s}, ", lf, fnOf[lf])
+			}
+			tb.WriteString("}},\n")
 		}
-		tb.WriteString("}},\n")
+		tb.WriteString("}\n")
+		os.WriteFile(filepath.Join(out, "zz_table.go"), []byte(tb.String()), 0o644)
+		os.WriteFile(filepath.Join(out, "zz_runner.go"), []byte(runnerSrc), 0o644)
+		// register.go's Register() would run every non-entry file at registration: not used by the runner
+		os.Remove(filepath.Join(out, "main.go"))
+		gomod := fmt.Sprintf("module main\n\ngo 1.25.0\n\nrequire (\n\tgithub.com/php-any/origami v0.0.0\n\tverif v0.0.0\n)\n\nreplace github.com/php-any/origami => %s\n\nreplace verif => %s\n", repo, ev.Root)
+		os.WriteFile(filepath.Join(out, "go.mod"), []byte(gomod), 0o644)
+		sum, _ := os.ReadFile(filepath.Join(ev.Root, "go.sum"))
+		os.WriteFile(filepath.Join(out, "go.sum"), sum, 0o644)
+		o, err := sh(out, []string{"GOFLAGS=-mod=mod", "GOPROXY=off"}, "go", "build", "-overlay", overlay, "-o", bin, ".")
+		if err == nil {
+			break
+		}
+		// the generator produced Go code that does not compile: find the source file it came from,
+		// record that, drop the fixture and translate the rest again
+		m := reBadAst.FindStringSubmatch(o)
+		if m == nil || attempt > 20 {
+			bo.err = "go build of the generated package failed: " + lastLines(o, 12)
+			return bo
+		}
+		bad := filepath.Join(src, "p"+m[1]+".php")
+		it, ok := byFile[bad]
+		if !ok {
+			bo.err = "go build failed in a file that cannot be mapped back: " + lastLines(o, 6)
+			return bo
+		}
+		bo.invalid[it.ID] = lastLines(o, 4)
+		os.Remove(bad)
+		for _, lf := range libFiles[bad] {
+			os.Remove(lf)
+			delete(owner, lf)
+		}
+		delete(libFiles, bad)
+		delete(byFile, bad)
+		os.RemoveAll(out)
+		if o2, err := sh(root, nil, cli, "compile", src, "-o", out, "--pkg", "main"); err != nil {
+			bo.err = "re-translation after dropping a file failed: " + lastLines(o2, 6)
+			return bo
+		}
 	}
-	tb.WriteString("}\n")
-	os.WriteFile(filepath.Join(out, "zz_table.go"), []byte(tb.String()), 0o644)
-	os.WriteFile(filepath.Join(out, "zz_runner.go"), []byte(runnerSrc), 0o644)
-	// register.go's Register() would run every non-entry file at registration: not used by the runner
-	os.Remove(filepath.Join(out, "main.go"))
-	gomod := fmt.Sprintf("module main\n\ngo 1.25.0\n\nrequire (\n\tgithub.com/php-any/origami v0.0.0\n\tverif v0.0.0\n)\n\nreplace github.com/php-any/origami => %s\n\nreplace verif => %s\n", repo, ev.Root)
-	os.WriteFile(filepath.Join(out, "go.mod"), []byte(gomod), 0o644)
-	sum, _ := os.ReadFile(filepath.Join(ev.Root, "go.sum"))
-	os.WriteFile(filepath.Join(out, "go.sum"), sum, 0o644)
-	bin := filepath.Join(root, "batch")
-	if o, err := sh(out, []string{"GOFLAGS=-mod=mod", "GOPROXY=off"}, "go", "build", "-overlay", overlay, "-o", bin, "."); err != nil {
-		bo.err = "go build of the generated package failed: " + lastLines(o, 12)
-		return bo
+	var files []string
+	for f := range byFile {
+		files = append(files, f)
 	}
 	o, err := sh(root, nil, bin)
 	for _, l := range strings.Split(o, "\n") {
@@ -486,6 +520,10 @@ func main() {
 			if strings.TrimSpace(msg) == "" {
 				c.Fail("silent-reject:"+famOf(id), "reported-compile-error", len(byID[id].Src), byID[id], "the compile command failed on this file without a diagnostic")
 			}
+		}
+		for id, msg := range bo.invalid {
+			c.Outcome("generated-code-invalid")
+			c.Fail("generated-code-does-not-compile:"+famOf(id), "reported-compile-error", len(byID[id].Src), byID[id], "origami compile accepted the file but the Go code it generated does not build:\n"+msg)
 		}
 		for _, r := range bo.results {
 			compared++
